@@ -183,6 +183,12 @@ def generate(rng, tier, ctx):
         s = [rng.choice([1, 2, 3, rng.randint(1, 1 << 64), rng.randint(1, M256 - N - 1)]) for _ in range(npub)]
         forged = [4 * i + j for i in range(rings) for j in range(rsizes[i]) if j != secidx[i]]
         first.append((mk_adv_line(hdr_or, e, m, mv, g, extra, secidx, sec, k, s), cls, extra, g, m, mv, forged, expect))
+        # the prover may also choose a forged scalar of ZERO: the ring equation still closes, but a zero scalar must be
+        # rejected wherever it sits (every flat position, not only the first `rings` ones)
+        if cls.startswith('plain-m') and 2 <= m <= 6:
+            for q in sorted(set(([f for f in forged if f >= rings][:1]) + forged[:1] + forged[-1:])):
+                s0 = list(s); s0[q] = 0
+                first.append((mk_adv_line(hdr_or, e, m, mv, g, extra, secidx, sec, k, s0), 'zero-forged-pos%d-m%d' % (q, m), extra, g, m, mv, [f for f in forged if f != q], 0))
     outs = ctx.model([f[0] for f in first])
     for (l, cls, extra, g, m, mv, forged, expect), o in zip(first, outs):
         t = o.split(' ')
